@@ -111,6 +111,12 @@ def reset(keep_path_config: bool = True):
         c.cache_clear()
     for m in ("resolve_first", "resolve_one", "resolve_all"):
         getattr(resolva.Resolver, m).cache_clear()
+    # process-long singletons of the data configuration (its Finders / Getters are created once and may hold state)
+    dc = sys.modules.get("spil_data_conf")
+    if dc is not None:
+        for name, val in list(vars(dc).items()):
+            if name.startswith("_") and not name.startswith("__") and isinstance(val, dict) and name != "_verif_sources":
+                val.clear()
 
 
 def set_cache_capacity(n: int | None):
